@@ -174,3 +174,13 @@ def features(v, _d=0, _seen=None, _out=None):
     else:
         _out.add(type(v).__name__)
     return _out
+
+
+def multi_frame_values():
+    """values whose protocol-4/5 pickle exceeds the 64 KiB frame target (several FRAME opcodes)
+    while consisting of only a handful of opcodes"""
+    return st.one_of(
+        st.integers(66000, 70000).map(lambda n: ["head", b"x" * n, "tail"]),
+        st.integers(66000, 68000).map(lambda n: {"blob": b"\x01" * n, "after": [1, 2, 3]}),
+        st.integers(66000, 67000).map(lambda n: (b"a" * n, "mid", b"b" * n, [n])),
+    )
